@@ -33,6 +33,9 @@ def features(F, b):
     ups = [(bb, t) for bb, t in calls_to(b, 'parameter::Parameter::<T>::update', suffix=False)]
     f['param_updates'] = sorted((self_field_of_call(b, t, 0) or '?').split('.')[-1] for bb, t in ups)
     f['param_dt'] = sorted(set(describe(b, t['args'][1], depth=6, at=bb) for bb, t in ups))
+    # phase order: the parameter updates come before the start-time / is_advancing gates (they run while paused, too)
+    gates = [x for x, t in b.calls() if (callee_path(t) or '') == 'sound::PlaybackState::is_advancing' and not b.in_loop(x)]
+    f['params_before_gates'] = bool(ups) and bool(gates) and all(b.dominates(bb, g) for bb, _ in ups for g in gates)
     # phase 2: ordered state events (outside loops)
     names = {PSM + '::update': 'psm.update', 'start_time::StartTime::update': 'start.update', PSM + '::mark_as_stopped': 'mark_stopped',
              'sound::PlaybackState::is_advancing': 'is_advancing'}
@@ -132,12 +135,12 @@ def run(ctx, R, tier):
     fb = {k: nrm(v) for k, v in fb.items()}
     R.extra['static_features'] = {k: v for k, v in fa.items()}
     R.extra['streaming_features'] = {k: v for k, v in fb.items()}
-    same_keys = ['param_updates', 'param_dt', 'frame_loops', 'interpolated', 'time_in_chunk', 'accumulate', 'decrement', 'while',
+    same_keys = ['param_updates', 'param_dt', 'params_before_gates', 'frame_loops', 'interpolated', 'time_in_chunk', 'accumulate', 'decrement', 'while',
                  'read_before_step', 'inner_while']
     expect = {
         'param_updates': ['panning', 'playback_rate', 'volume'],
         'interpolated': ['panning', 'playback_rate', 'volume', 'fade'],
-        'while': ['Ge(1.0)'], 'read_before_step': True, 'inner_while': 1, 'frame_loops': 1,
+        'while': ['Ge(1.0)'], 'read_before_step': True, 'params_before_gates': True, 'inner_while': 1, 'frame_loops': 1,
     }
     for k in same_keys:
         ok = fa.get(k) == fb.get(k) and (k not in expect or fa.get(k) == expect[k]) and fa.get(k) not in (None, [])
